@@ -22,6 +22,7 @@ class Site:
         self.stores = []        # [(field, sub)] where the call's result ends up
         self.store_problem = None
         self.index = 0
+        self.extra_conditions = []
 
     def label(self):
         return self.field + (f'[].{self.sub}' if self.sub else '')
@@ -150,6 +151,30 @@ class WalkerModel:
                             fo = fu.field_of(x)
                             if fo is not None and fo[0] == s.field and fo[1] == 'node':
                                 s.guarded = True
+            # conditions the visit stands under that are NOT presence tests of the visited field (aliases of the field resolved) nor the class test of the branch
+            from .cfg import dominating_conditions
+            s.extra_conditions = []
+            for t_, pol in dominating_conditions(c, stop=b.ifnode):
+                subj = None
+                if isinstance(t_, ast.Compare) and len(t_.ops) == 1 and isinstance(t_.comparators[0], ast.Constant) and t_.comparators[0].value is None:
+                    if (isinstance(t_.ops[0], ast.IsNot) and pol) or (isinstance(t_.ops[0], ast.Is) and not pol):
+                        subj = t_.left
+                elif isinstance(t_, (ast.Attribute, ast.Name)) and pol:
+                    subj = t_
+                elif isinstance(t_, ast.Call) and dotted(t_.func) == 'hasattr' and pol and len(t_.args) == 2 and norm(t_.args[0]) == self.node \
+                        and isinstance(t_.args[1], ast.Constant) and t_.args[1].value == s.field:
+                    continue
+                elif isinstance(t_, ast.Call) and dotted(t_.func) == 'isinstance' and t_.args and norm(t_.args[0]) == self.node:
+                    continue
+                elif isinstance(t_, ast.Compare) and len(t_.ops) == 1 and isinstance(t_.left, ast.Call) and dotted(t_.left.func) == 'len' and t_.left.args \
+                        and isinstance(t_.comparators[0], ast.Constant) and t_.comparators[0].value == 0 and (
+                            (isinstance(t_.ops[0], (ast.Gt, ast.NotEq)) and pol) or (isinstance(t_.ops[0], ast.Eq) and not pol)):
+                    subj = t_.left.args[0]
+                if subj is not None:
+                    fo = fu.field_of(subj)
+                    if fo is not None and fo[0] == s.field:
+                        continue
+                s.extra_conditions.append((t_, pol))
             self._stores(b, s, fu)
             b.sites.append(s)
 
